@@ -84,9 +84,10 @@ struct LiveNode {
             std::scoped_lock lock(m);
             received.push_back(rec);
         });
-        node->start_transport(0);
+        slot = fx::PortPool::get().start(*node);
     }
-    ~LiveNode() { fx::stop_and_destroy(node); }
+    int slot{-1};
+    ~LiveNode() { fx::stop_and_destroy(node); fx::PortPool::get().release(slot); }
     std::size_t count() { std::scoped_lock lock(m); return received.size(); }
 };
 
@@ -370,9 +371,10 @@ void c14m_case(Ctx& c, Rng& r) {
                 std::scoped_lock lock(m);
                 received.push_back(rec);
             });
-            node->start_transport(0);
+            slot = fx::PortPool::get().start(*node);
         }
-        ~SlowNode() { fx::stop_and_destroy(node); }
+        int slot{-1};
+        ~SlowNode() { fx::stop_and_destroy(node); fx::PortPool::get().release(slot); }
         std::size_t count() { std::scoped_lock lock(m); return received.size(); }
     };
     LiveNode A(r.arr<32>(), ca);
